@@ -129,7 +129,7 @@ func (c *Collection) GetAndTouchRaw(key string, exp Exp) (val []byte, cas CAS, e
 		val, cas, revSeqNo, err = c.getRaw(txn, key)
 		if err == nil {
 			revSeqNo++
-			_, err = txn.Exec(`UPDATE documents SET exp=?1, revSeqNo=?2 WHERE key=?3`, exp, revSeqNo, key)
+			_, err = txn.Exec(`UPDATE documents SET exp=?1, revSeqNo=?2 WHERE collection=?3 AND key=?4`, exp, revSeqNo, c.id, key)
 		}
 		return
 	})
